@@ -64,3 +64,23 @@ func init() {
 		}
 	}
 }
+
+func init() {
+	for _, a := range os.Args {
+		if a == "-errsites" {
+			root := "/repo"
+			for j, b := range os.Args {
+				if b == "-repo" && j+1 < len(os.Args) {
+					root = os.Args[j+1]
+				}
+			}
+			w, err := loadWorld(root, nil)
+			if err != nil {
+				fmt.Println(err)
+				os.Exit(2)
+			}
+			errSurvey(&Ctx{W: w}, "survey")
+			os.Exit(0)
+		}
+	}
+}
